@@ -3,6 +3,7 @@
 Pre-defined scalar types.
 """
 
+import math
 import re
 import uuid
 from typing import Any, Callable, List, Mapping, Optional, Type, TypeVar, Union
@@ -99,11 +100,18 @@ def coerce_float(maybe_float: _ScalarValue) -> float:
         raise ValueError("Float cannot represent non numeric value: None")
 
     try:
-        return float(maybe_float)
+        numeric = float(maybe_float)
     except ValueError:
         raise ValueError(
             "Float cannot represent non numeric value: %s" % maybe_float
         )
+
+    if not math.isfinite(numeric):
+        raise ValueError(
+            "Float cannot represent non finite value: %s" % maybe_float
+        )
+
+    return numeric
 
 
 _coerce_int_node = _typed_coerce(coerce_int, _ast.IntValue)
